@@ -159,6 +159,7 @@ def cases(tier):
     for unit in UNITS:
         for which in ("start", "end"):
             weeks = WEEKS if (unit == "week" and tier != "quick") else ([(0, 6), (6, 5)] if unit == "week" else [(0, 6)])
+            zone_weeks = [(0, 6)]          # thorough: weeks with a zone for the default configuration only (each case runs > 8 min)
             for ws, we in weeks:
                 wk = f" week {ws}-{we}" if unit == "week" else ""
                 kinds = ("zone", "utc", "fixed", "naive")
@@ -167,6 +168,8 @@ def cases(tier):
                     # zone branches; the quick tier decides weeks on utc/fixed and the zone behaviour on the day unit
                     kinds = ("utc",) if unit == "week" else ("zone", "utc")
                 for kind in kinds:
+                    if kind == "zone" and unit == "week" and (ws, we) not in zone_weeks:
+                        continue
                     for shape in (("gap", "overlap") if kind == "zone" else (None,)):
                         w = (2000, 2000) if (kind == "zone" or (unit == "week" and tier == "quick")) else win
                         out.append(dict(name=f"{which}_of {unit}{wk} {kind} {shape or ''}", fn=datetime_unit,
